@@ -3,8 +3,17 @@
 record the outcome in seeded/<id>/meta.json (check_results) and print a table.  Extra checks per seed: EXTRA below."""
 import json, os, re, subprocess, sys, time
 V = "/verif"
-EXTRA = {"C04-m1": ["C19"], "C07-m1": ["C05"], "C05-m2": ["C18"], "C06-m1": ["C05", "C09"], "C08-m1": ["C07"]}
-ids = sys.argv[1:] or sorted(os.listdir(os.path.join(V, "seeded")))
+EXTRA = {"C04-m1": ["C19"], "C07-m1": ["C05"], "C05-m2": ["C18"], "C06-m1": ["C05", "C09"], "C08-m1": ["C07"],
+         # second wave: checks of neighbouring properties whose subject the change also touches
+         "C07-m3": ["C05", "C06"], "C05-m3": ["C07"], "C07-m4": ["C06"], "C08-m3": ["C10"], "C04-m4": ["C09", "C10"],
+         "C09-m3": ["C10"], "C10-m3": ["C09"], "C17-m3": ["C02"], "C02-m4": ["C17"], "C14-m4": ["C11"], "C11-m3": ["C09"],
+         "C05-m4": ["C15"], "C01-m4": ["C12"], "C12-m3": ["C01"], "C16-m3": ["C01"], "C13-m3": ["C04"], "C04-m3": ["C13"]}
+MODE = "all"            # --no-extra: only the property's own check; --only-extra: only the neighbouring checks
+args = [a for a in sys.argv[1:] if not a.startswith("--")]
+for a in sys.argv[1:]:
+    if a in ("--no-extra", "--only-extra"):
+        MODE = a
+ids = args or sorted(os.listdir(os.path.join(V, "seeded")))
 for sid in ids:
     d = os.path.join(V, "seeded", sid)
     mp = os.path.join(d, "meta.json")
@@ -19,7 +28,7 @@ for sid in ids:
         m.setdefault("check_results", {})["apply"] = "does not apply to current HEAD (needs porting)"
         json.dump(m, open(mp, "w"), indent=1)
         continue
-    for pid in [m["property"]] + EXTRA.get(sid, []):
+    for pid in ([] if MODE == "--only-extra" else [m["property"]]) + ([] if MODE == "--no-extra" else EXTRA.get(sid, [])):
         if not os.path.exists(os.path.join(V, "lib", "props", pid + ".py")):
             continue
         t0 = time.time()
